@@ -389,7 +389,7 @@ def make_component(prog, idx: int, tag: str, log: Optional[list] = None, extra: 
     from django_components import Component
     spec = prog["comps"][idx - 1]
     data = spec["data"]
-    src = tpl_src(spec["tpl"], tag, dyn, probes)
+    src = "" if (extra and "template" in extra) else tpl_src(spec["tpl"], tag, dyn, probes)
 
     def get_context_data(self, **kwargs):
         if log is not None:
